@@ -271,9 +271,10 @@ CapIntersects(c, ec, o, eo) ==
     ELSE IF Ang12(ec) >= 0 /\ Ang12(eo) >= 0 /\ DistAng12(c, o) >= 0 THEN
         Tri(Ang12(ec) + Ang12(eo) - DistAng12(c, o), FALSE)
     ELSE "U"
-\* antipodal centres and radii summing to more than pi: the caps overlap, but the code's
-\* chord-angle sum is clamped at pi and compared with a centre distance of exactly pi
-CapClampCase(c, ec, o, eo) == c = VNeg(o) /\ ec > 0 /\ eo >= 0 /\ ec + eo > 32
+\* antipodal centres and radii summing to more than pi (or a full receiver): the interior of
+\* the first cap meets the second, but the code's chord-angle sum is clamped at pi and is
+\* compared (strictly) with a centre distance of exactly pi
+CapClampCase(c, ec, o, eo) == c = VNeg(o) /\ ec > 0 /\ eo >= 0 /\ (ec + eo > 32 \/ ec = 32)
 CapInteriorIntersects(c, ec, o, eo) ==
     IF ec <= 0 \/ eo = -8 THEN "F"
     ELSE IF c = o THEN "T"
